@@ -547,9 +547,24 @@ def c15a(F, R):
             R.ok("push|base", detail="base file lexer pushed once before the loop", where=loc(n))
         else:
             pv = pat_variants(arm["pat"])
+            # `let (id, text) = self.reader.import_file(..)..?; self.lexer_stack.push(..)`: a failed import has left the block before the push
+            blk_, st_ = n, None
+            while id(blk_) in pm and pm[id(blk_)].get("k") != "Block":
+                blk_ = pm[id(blk_)]
+            holder = pm.get(id(blk_))
+            after_try = False
+            if holder is not None and holder.get("k") == "Block":
+                for s_ in holder.get("stmts", []):
+                    if s_ is blk_ or any(y is n for y in walk(s_, pats=False)):
+                        break
+                    if s_.get("k") == "Let" and s_.get("init") is not None and peel(s_["init"]).get("k") == "Match" and peel(s_["init"]).get("src") == "TryDesugar" and mentions_call(peel(s_["init"])["scrut"], "import_file"):
+                        after_try = True
             if pv == [("path", "core::result::Result::Ok")] and mt and mentions_call(mt["scrut"], "import_file"):
                 kinds.append("include")
                 R.ok("push|include", detail="pushed on the Ok arm of reader.import_file(include path)", where=loc(n))
+            elif after_try:
+                kinds.append("include")
+                R.ok("push|include", detail="pushed after `import_file(include path)..?`: a failed import has left the block", where=loc(n))
             else:
                 R.bad("push|stray", f"lexer_stack.push under {pv}: a lexer is pushed without a successful import", loc(n))
     if sorted(kinds) != ["base", "include"]:
@@ -627,6 +642,34 @@ def c15b(F, R):
                     tailt = peel(f["hir"]["value"].get("expr") or {})
                     errs = ekey(tailt["elems"][1]) if tailt.get("k") == "Tup" and len(tailt["elems"]) == 2 else "?"
                     okk = errs in pushes and mentions_call(a["body"], "to_parse_error") and not rets
+    if not okk:
+        # helper form: `import_file(..).map_err(|e| e.to_parse_error(path))?` inside a private helper (read inline), and the caller's
+        # `if let Err(e) = <helper> { errors.push(e) }` / `match <helper> { Err(e) => errors.push(e), .. }`
+        tailt = peel(f["hir"]["value"].get("expr") or {})
+        errs = ekey(tailt["elems"][1]) if tailt.get("k") == "Tup" and len(tailt["elems"]) == 2 else "?"
+
+        def maps_and_propagates(e):
+            for t in walk(e, pats=False):
+                if t.get("k") == "Match" and t.get("src") == "TryDesugar" and mentions_call(t["scrut"], "import_file"):
+                    for m_ in walk(t["scrut"], pats=False):
+                        if m_.get("k") == "MethodCall" and m_["name"] == "map_err" and mentions_call(m_["args"][0], "to_parse_error") and mentions_call(m_["recv"], "import_file") \
+                                and any(a.get("k") == "Call" and short(callee_of(a) or "") == "Some" for a in walk(m_["recv"], pats=False)):
+                            return True
+            return False
+        for n_ in walk(f["hir"]["value"], pats=False):
+            cands = []
+            if n_.get("k") == "If" and peel_cond(n_["cond"]).get("k") == "LetExpr":
+                le = peel_cond(n_["cond"])
+                cands.append((le["pat"], le["init"], n_["then"]))
+            if n_.get("k") == "Match" and n_.get("src") in (None, "Normal"):
+                cands += [(a_["pat"], n_["scrut"], a_["body"]) for a_ in n_["arms"]]
+            for pat_, init_, body_ in cands:
+                if pat_variants(pat_) != [("path", "core::result::Result::Err")] or not maps_and_propagates(init_):
+                    continue
+                eb = [b_["name"] for b_ in walk(pat_) if b_.get("k") == "PBinding"]
+                pushed = [m_ for m_ in walk(body_, pats=False) if m_.get("k") == "MethodCall" and m_["name"] == "push" and ekey(m_["recv"]) == errs and m_["args"] and ekey(m_["args"][0]) in eb]
+                if pushed and not any(y.get("k") in ("Ret", "Break") for y in walk(body_, pats=False)):
+                    okk = True
     if okk:
         R.ok("include-error-arm", detail="Err arm of the include import pushes to_parse_error(path) and keeps parsing")
     else:
@@ -2502,12 +2545,20 @@ def _directive_stop_tests(body):
         if c.get("k") == "LetExpr":
             return dt_of_pat(c["pat"])
         c = peel(c)
+        if c.get("k") == "Binary" and c["op"] == "And":
+            return sorted(set(variants(c["a"], depth) + variants(c["b"], depth)))
+        if c.get("k") == "MethodCall" and c["name"] in ("is_ok_and", "is_some_and") and c["args"] and peel(c["args"][0]).get("k") == "Closure":
+            return variants(peel(c["args"][0])["body"], depth + 1)       # `from_str(d).is_ok_and(|t| t == DirectiveToken::X)`
         if c.get("k") == "Binary" and c["op"] == "Eq":
             out = []
             for side in (peel(c["a"]), peel(c["b"])):
-                for y in walk(side, pats=False):
-                    if y.get("k") == "Path" and (y.get("res") or "").startswith(_DT + "::"):
-                        out.append(short(y["res"]))
+                # the directive *value* is compared (`t == X`, `from_str(d) == Ok(X)`); `tok == TokenType::Directive(X.to_string())` compares one
+                # spelling of X with the text - the other spellings the table accepts (`.end_macro` / `.endmacro`) do not match
+                y = side
+                while y.get("k") in ("AddrOf",) or (y.get("k") == "Unary" and y.get("op") == "Deref") or (y.get("k") == "Call" and short(callee_of(y) or "") in ("Ok", "Some") and len(y["args"]) == 1):
+                    y = peel(y.get("e") or y.get("a") or y["args"][0])
+                if y.get("k") == "Path" and (y.get("res") or "").startswith(_DT + "::"):
+                    out.append(short(y["res"]))
             return sorted(set(out))
         if c.get("k") == "Match" and len(c.get("arms", [])) == 2 and lit_value(c["arms"][0]["body"]) is True:
             vs_ = dt_of_pat(c["arms"][0]["pat"])
